@@ -424,23 +424,24 @@ def fix_starred_imports(source: str) -> str:
     if not template:
         return source
 
+    # The same starred import may be there more than once, with the names used in between.
+    # All of them provide the same names, so names are collected per module.
     undefined_names = get_undefined_variables(source)
     for name in undefined_names:
         if trace_result := trace_origin(name, source):
             if core.match_template(trace_result.ast, template):
-                starred_import_name_mapping[trace_result.ast].add(name)
+                starred_import_name_mapping[trace_result.ast.module].add(name)
 
-    for node, names in starred_import_name_mapping.items():
+    for node in template:
+        names = starred_import_name_mapping.get(node.module)
         if names:
             yield node, ast.ImportFrom(
                 module=node.module,
                 names=[ast.alias(name=name, asname=None) for name in sorted(names)],
                 level=0,
             )
-
-    # Remove remaining starred imports
-    for node in core.filter_nodes(root.body, template):
-        if not core.match_template(node, tuple(starred_import_name_mapping)):
+        else:
+            # Remove remaining starred imports
             yield node, None
 
 
